@@ -14,6 +14,7 @@
 //	cache-conc   real goroutines on one cache                           oracle (+ model-side re-check)
 //	get-conc     real goroutines on one caching client                  oracle (+ model-side re-check)
 //	stress-rl    receipts plan racing a logs plan on one cached block   oracle
+//	stress-tr    reader of a trace plan while another trace plan attaches  oracle
 package main
 
 import (
@@ -62,6 +63,7 @@ func run(cfg lib.Cfg) error {
 		{"cache-conc", 40, 600, genCacheConc},
 		{"get-conc", 30, 400, genGetConc},
 		{"stress-rl", 1, 4, genStressRL},
+		{"stress-tr", 1, 3, genStressTR},
 	}
 
 	if cfg.Replay != "" {
